@@ -122,7 +122,8 @@ def gen_cases(chk):
 def run(chk):
     chk.trusted += ['hand model Model/CmapModel.v of FindCmapSubtable, CheckCmapSubtable4/12, CmapSubtable4/12Lookup/NextCodepoint, cache_subtable, Direct/CachedCmap',
                     'Python reference for OpenType cmap semantics (tools/props/cmapgen.py) used as the oracle']
-    chk.assumptions += ['a well-formed cmap: sorted disjoint segments/groups, final format-4 segment ending at 0xFFFF; where a format-12 subtable also '
+    chk.assumptions += ['C13_cached_eq_direct is proved for every table whose accepted subtables meet wf4 / wf12 (sorted disjoint segments / groups, start <= end, final format-4 segment ending at 0xFFFF); outside that (malformed tables the checks still accept) agreement of the two paths is not claimed by the property and only safety + model agreement are checked',
+                        'a well-formed cmap: sorted disjoint segments/groups, final format-4 segment ending at 0xFFFF; where a format-12 subtable also '
                         'covers BMP characters it agrees with the format-4 subtable (OpenType requires a superset)']
     chk.check_proofs()
     mexe, wrapper = build(chk)
@@ -136,8 +137,18 @@ def run(chk):
     ml, il, ierr = vlib.run_pair(mexe, wrapper, cases, timeout=2400)
     _, fl, ferr = vlib.run_pair(None, chk.sweep_wrapper, fcases, timeout=2400)
     ndis, classes, dist = 0, set(), {}
+
+    def meets_wf(mt):
+        """the hypotheses wf4 / wf12 of C13_cached_eq_direct, on the generator's own description of the table"""
+        sg, gr = mt['segs'], mt['groups'] or []
+        ok4 = bool(sg) and all(a['start'] <= a['end'] for a in sg) and all(a['end'] < b['start'] for a, b in zip(sg, sg[1:])) and sg[-1]['end'] == 0xFFFF
+        ok12 = all(s <= e <= 0x10FFFF for s, e, g in gr) and all(a[1] < b[0] for a, b in zip(gr, gr[1:]))
+        return ok4 and ok12
     for c, mt, m, i in zip(cases, meta, ml, il):
         dist[mt['kind']] = dist.get(mt['kind'], 0) + 1
+        if mt['kind'] == 'wellformed':
+            k = 'wellformed meeting wf4/wf12 (the hypotheses of C13_cached_eq_direct)' if meets_wf(mt) else 'wellformed outside wf4/wf12'
+            dist[k] = dist.get(k, 0) + 1
         if i is None:
             chk.tie_break('harness', 'no result line', c[:300]); continue
         key = 'cmap:%s' % hexs(mt['tbl'])[:96]
